@@ -809,6 +809,122 @@ Proof.
 Qed.
 
 (* ------------------------------------------------------------------ *)
+(* DHCPv4: plugins/dhcp4/local buildDHCPv4Reply + optionWriter.addByte, then dhcp4.ParseMessage *)
+Fixpoint add_byte (fuel : nat) (t : N) (d : bytes) : bytes :=
+  match fuel with
+  | O => []
+  | S f => if 255 <? lenN d then t :: 255 :: firstn 255 d ++ add_byte f t (skipn 255 d)
+           else t :: byte_of (lenN d) :: d
+  end.
+Definition add_opt (t : N) (d : bytes) : bytes := add_byte (S (length d)) t d.
+Fixpoint build_opts4 (l : list (N * bytes)) : bytes :=
+  match l with [] => [] | (t, d) :: r => add_opt t d ++ build_opts4 r end.
+Definition build_reply4 (xid : N) (ci yi si ch : bytes) (mt : N) (opts : list (N * bytes)) : bytes :=
+  [2; 1; 6; 0] ++ put32 xid ++ put16 0 ++ put16 0 ++ ci ++ yi ++ si ++ repeat 0 4 ++
+  ch ++ repeat 0 (16 - length ch) ++ repeat 0 64 ++ repeat 0 128 ++ put32 1669485411 ++
+  build_opts4 ((53, [mt]) :: opts) ++ [255].
+
+Fixpoint o4_fold (l : list (N * bytes)) (o : o4) : result o4 :=
+  match l with [] => Ok o | (t, d) :: r => o' <- o4_apply o t (lenN d) d;; o4_fold r o' end.
+Definition wf_opt4 (td : N * bytes) : bool :=
+  negb (fst td =? 0) && negb (fst td =? 255) && (lenN (snd td) <? 256).
+Definition wf_opts4 (l : list (N * bytes)) : bool := forallb wf_opt4 l.
+
+Lemma add_opt_small t d : lenN d < 256 -> add_opt t d = t :: lenN d :: d.
+Proof.
+  intros H. unfold add_opt. cbn [add_byte]. destruct (255 <? lenN d) eqn:E; [lia|].
+  rewrite byte_of_small by lia. reflexivity.
+Qed.
+Lemma build_opts4_small l : wf_opts4 l = true -> build_opts4 l = build_subs l.
+Proof.
+  induction l as [|[t d] r IH]; intros H; [reflexivity|].
+  cbn [wf_opts4 forallb] in H. apply andb_prop in H. destruct H as [Hw Hr]. unfold wf_opt4 in Hw. cbn [fst snd] in Hw.
+  cbn [build_opts4 build_subs]. rewrite add_opt_small by lia. rewrite IH by exact Hr.
+  rewrite byte_of_small by lia. reflexivity.
+Qed.
+Lemma o4_loop_build : forall l fuel tail o, wf_opts4 l = true -> (length l < fuel)%nat ->
+  o4_loop fuel (build_subs l ++ 255 :: tail) o = o4_fold l o.
+Proof.
+  induction l as [|[t d] r IH]; intros fuel tail o Hwf Hf.
+  - destruct fuel; [cbn in Hf; lia|]. cbn [build_subs app o4_loop o4_fold].
+    destruct (2 <=? lenN (255 :: tail)); [|reflexivity]. rewrite idx0. reflexivity.
+  - destruct fuel; [lia|]. cbn [wf_opts4 forallb] in Hwf. apply andb_prop in Hwf. destruct Hwf as [Hw Hr].
+    unfold wf_opt4 in Hw. cbn [fst snd] in Hw.
+    cbn [build_subs o4_loop o4_fold]. rewrite byte_of_small by lia.
+    set (rest := build_subs r ++ 255 :: tail).
+    change ((t :: lenN d :: d ++ build_subs r) ++ 255 :: tail) with (t :: lenN d :: (d ++ build_subs r) ++ 255 :: tail).
+    rewrite <- app_assoc. fold rest.
+    destruct (2 <=? lenN (t :: lenN d :: d ++ rest)) eqn:E0; [|lens; lia].
+    rewrite idx0. cbn [rbind].
+    destruct (t =? 255) eqn:E1; [lia|]. destruct (t =? 0) eqn:E2; [lia|].
+    rewrite idx1. cbn [rbind].
+    destruct (lenN (t :: lenN d :: d ++ rest) <? 2 + lenN d) eqn:E3; [lens; lia|].
+    rewrite (rdbytes [t; lenN d] d rest) by (lens; lia). cbn [rbind].
+    destruct (o4_apply o t (lenN d) d) as [o'| | |]; cbn [rbind]; try reflexivity.
+    change (t :: lenN d :: d ++ rest) with ((t :: lenN d :: d) ++ rest).
+    rewrite slf_app by (lens; lia). cbn [rbind].
+    subst rest. apply IH; [exact Hr|cbn [length] in Hf; lia].
+Qed.
+
+Definition wf_reply4 (xid : N) (ci yi si ch : bytes) (opts : list (N * bytes)) : bool :=
+  (xid <? 4294967296) && (lenN ci =? 4) && (lenN yi =? 4) && (lenN si =? 4) && (lenN ch =? 6) && wf_opts4 opts.
+Lemma idx2 a b c l : idx 2 (a :: b :: c :: l) = Ok c.
+Proof. reflexivity. Qed.
+Lemma idx3 a b c d l : idx 3 (a :: b :: c :: d :: l) = Ok d.
+Proof. reflexivity. Qed.
+
+Ltac rdb P M := rewrite (rdbytes P M) by (lens; lia); cbn [rbind]; rewrite (app_assoc P M).
+
+Lemma dhcp4_roundtrip xid ci yi si ch mt opts : wf_reply4 xid ci yi si ch opts = true ->
+  parse_message4 (build_reply4 xid ci yi si ch mt opts) =
+  (o <- o4_fold ((53, [mt]) :: opts) o4_0;;
+   Ok (mkM4 2 1 6 0 xid 0 0 ci yi si (repeat 0 4) ch (repeat 0 64) (repeat 0 128) true o)).
+Proof.
+  unfold wf_reply4. intros H.
+  repeat (apply andb_prop in H; let H2 := fresh "W" in destruct H as [H H2]).
+  assert (Hch : length ch = 6%nat) by (unfold lenN in *; lia).
+  unfold parse_message4, build_reply4. rewrite Hch. change (16 - 6)%nat with 10%nat.
+  assert (Hwf : wf_opts4 ((53, [mt]) :: opts) = true) by (unfold wf_opts4 in *; cbn [forallb]; rewrite W; reflexivity).
+  rewrite build_opts4_small by exact Hwf.
+  set (ob := build_subs ((53, [mt]) :: opts) ++ [255]).
+  match goal with |- context [lenN ?L <? 240] => destruct (lenN L <? 240) eqn:E; [lens; lia|] end.
+  cbn [app]. rewrite idx0, idx1, idx2, idx3. cbn [rbind].
+  change (2 :: 1 :: 6 :: 0 :: ?R) with ([2; 1; 6; 0] ++ R).
+  rd4 [2; 1; 6; 0] xid. rd2 ([2; 1; 6; 0] ++ put32 xid) 0. rd2 (([2; 1; 6; 0] ++ put32 xid) ++ put16 0) 0.
+  rdb ((([2; 1; 6; 0] ++ put32 xid) ++ put16 0) ++ put16 0) ci.
+  rdb (((([2; 1; 6; 0] ++ put32 xid) ++ put16 0) ++ put16 0) ++ ci) yi.
+  rdb ((((([2; 1; 6; 0] ++ put32 xid) ++ put16 0) ++ put16 0) ++ ci) ++ yi) si.
+  rdb (((((([2; 1; 6; 0] ++ put32 xid) ++ put16 0) ++ put16 0) ++ ci) ++ yi) ++ si) (repeat 0 4).
+  change (if 16 <? 6 then 16 else 6) with 6.
+  rdb ((((((([2; 1; 6; 0] ++ put32 xid) ++ put16 0) ++ put16 0) ++ ci) ++ yi) ++ si) ++ repeat 0 4) ch.
+  rewrite (app_assoc _ (repeat 0 10)).
+  rdb ((((((((([2; 1; 6; 0] ++ put32 xid) ++ put16 0) ++ put16 0) ++ ci) ++ yi) ++ si) ++ repeat 0 4) ++ ch) ++ repeat 0 10) (repeat 0 64).
+  rdb (((((((((([2; 1; 6; 0] ++ put32 xid) ++ put16 0) ++ put16 0) ++ ci) ++ yi) ++ si) ++ repeat 0 4) ++ ch) ++ repeat 0 10) ++ repeat 0 64) (repeat 0 128).
+  rd4 ((((((((((([2; 1; 6; 0] ++ put32 xid) ++ put16 0) ++ put16 0) ++ ci) ++ yi) ++ si) ++ repeat 0 4) ++ ch) ++ repeat 0 10) ++ repeat 0 64) ++ repeat 0 128) 1669485411.
+  change (negb (1669485411 =? 1669485411)) with false. cbv iota.
+  rewrite slf_app by (lens; lia). cbn [rbind].
+  subst ob. change [255] with (255 :: @nil N).
+  rewrite o4_loop_build; [reflexivity|exact Hwf|].
+  rewrite app_length. pose proof (build_subs_length ((53, [mt]) :: opts)). lia.
+Qed.
+
+(* RFC 3396 splitting in the builder vs. a parser that does not concatenate: a value longer than 255 bytes does NOT
+   come back.  Witness: 64 DNS servers (256 bytes) are written as 255 + 1 bytes; the parser reads 63 servers from the
+   first fragment, drops its 3 trailing bytes and finds no server in the second. *)
+Definition dns64 : bytes := map N.of_nat (seq 0 256).
+Lemma dhcp4_split_refuted :
+  exists m, parse_message4 (build_reply4 1 [0; 0; 0; 0] [10; 0; 0; 2] [10; 0; 0; 1] [2; 0; 0; 0; 0; 1] 5 [(6, dns64)]) = Ok m /\
+            length (q_dns (w_opts m)) = 63%nat /\ lenN dns64 = 4 * 64.
+Proof. eexists. split; [vm_compute; reflexivity|]. split; vm_compute; reflexivity. Qed.
+Lemma dhcp4_roundtrip_nonvacuous :
+  wf_reply4 305419896 [0; 0; 0; 0] [10; 0; 0; 2] [10; 0; 0; 1] [2; 0; 0; 0; 0; 1]
+            [(54, [10; 0; 0; 1]); (51, [0; 0; 14; 16]); (1, [255; 255; 255; 0]); (3, [10; 0; 0; 1]); (6, [8; 8; 8; 8; 1; 1; 1; 1])] = true /\
+  (exists o, o4_fold [(53, [5]); (54, [10; 0; 0; 1]); (51, [0; 0; 14; 16]); (1, [255; 255; 255; 0]); (3, [10; 0; 0; 1]);
+                      (6, [8; 8; 8; 8; 1; 1; 1; 1])] o4_0 = Ok o /\
+             q_type o = 5 /\ q_lease o = 3600 /\ q_dns o = [[8; 8; 8; 8]; [1; 1; 1; 1]]).
+Proof. split; [vm_compute; reflexivity|]. eexists. split; [vm_compute; reflexivity|]. cbn. repeat split; reflexivity. Qed.
+
+(* ------------------------------------------------------------------ *)
 (* driver entry for the build -> parse correspondence cases (Go builder output fed to the Go parser) *)
 Fixpoint zip_avps (ns : list N) (bs : list bytes) : list avp :=
   match ns, bs with
@@ -841,6 +957,10 @@ Definition run_build (entry : N) (na : list N) (ba : list bytes) : result (list 
     let b := serialize6 r in rmap (fun m => TB b :: msg6_toks (Some m)) (parse_message6 b)
   else if entry =? 85 then
     Ok [TB (build_opt82 (barg 0 ba) (barg 1 ba) (if nb (arg 0 na) then Some (arg 1 na) else None))]
+  else if entry =? 86 then
+    let b := build_reply4 (arg 0 na) (barg 0 ba) (barg 1 ba) (barg 2 ba) (barg 3 ba) (arg 1 na)
+                          (combine (skipn 2 na) (skipn 4 ba)) in
+    rmap (fun m => TB b :: msg4_toks m) (parse_message4 b)
   else Err 99.
 
 (* ------------------------------------------------------------------ *)
